@@ -15,6 +15,11 @@ def schema():
     return _schema
 
 
+def eff_pos(t):
+    """FieldTraits::getPos: 0 unless the position bit is set (user-defined fields added with f8c -F)"""
+    return t[2] if t[3] & F_POS else 0
+
+
 def kind(sc, ftype):
     return sc['code_kind'].get(ftype, 'other')
 
@@ -150,11 +155,12 @@ def gen_message(rng, sc, p_opt=None, msgtype=None, data_tags=None, with_data=Tru
     return mt, h + b + t
 
 
-def spec_line(cmd, mt, items, rng=None):
+def spec_line(cmd, mt, items, rng=None, want_items=False):
     its = list(items)
     if rng is not None:
-        rng.shuffle(its)           # insertion order must not matter
-    return '%s M=%s %s' % (cmd, hx(mt), ' '.join(i.spec() for i in its))
+        rng.shuffle(its)           # insertion order must not matter (except among fields without a schema position)
+    line = '%s M=%s %s' % (cmd, hx(mt), ' '.join(i.spec() for i in its))
+    return (line, its) if want_items else line
 
 
 # ------------------------------------------------------------------------------------------------
@@ -207,7 +213,7 @@ def expected_tree(sc, traits, items):
     """the items of a spec (one section) as (tag, val, elems) sorted by schema position, recursively"""
     pos = {t[0]: t for t in traits}
     out = []
-    for it in sorted(items, key=lambda i: pos[i.tag][2]):
+    for it in sorted(items, key=lambda i: eff_pos(pos[i.tag])):      # stable: fields without a position keep insertion order
         if it.elems is None or not it.elems:
             out.append((it.tag, it.val, None))
         else:
@@ -226,3 +232,341 @@ def kv(out):
     for m in re.finditer(r'(\w+)=(.*?)(?= \w+=|$)', out):
         d[m.group(1)] = m.group(2)
     return d
+
+
+# ------------------------------------------------------------------------------------------------
+# an independent reference encoder and conformance recogniser (written from the FIX tag=value rules, not from the model)
+
+def ref_tokens(sc, traits, items):
+    """flatten one section (items in schema position order, stable) into (tag, value) tokens"""
+    pos = {t[0]: t for t in traits}
+    out = []
+    for it in sorted(items, key=lambda i: eff_pos(pos[i.tag])):
+        out.append((it.tag, it.val))
+        if it.elems:
+            g = sc['groups'][pos[it.tag][4]]
+            for e in it.elems:
+                out += ref_tokens(sc, g, e)
+    return out
+
+
+def render_tokens(toks):
+    return b''.join(b'%d=%s\x01' % (t, v) if isinstance(t, int) else t + b'=' + v + b'\x01' for t, v in toks)
+
+
+def frame(sc, payload):
+    """BeginString / BodyLength in front, CheckSum behind"""
+    front = b'8=' + sc['beginstr'] + b'\x019=%d\x01' % len(payload) + payload
+    return front + b'10=%03d\x01' % (sum(front) % 256)
+
+
+def ref_encode(sc, mt, items):
+    body_tr = [m for m in sc['msgs'] if m[0] == mt][0][1]
+    h = [i for i in items if i.sec == 'h']
+    b = [i for i in items if i.sec == 'b']
+    t = [i for i in items if i.sec == 't']
+    toks = [(35, mt)] + ref_tokens(sc, sc['header'], h) + ref_tokens(sc, body_tr, b) + ref_tokens(sc, sc['trailer'], t)
+    return frame(sc, render_tokens(toks)), toks
+
+
+def tokenize(raw):
+    """plain tag=value|SOH tokenisation (no data-field awareness); returns list of (tagbytes, value) and leftover"""
+    toks, i = [], 0
+    while i < len(raw):
+        j = raw.find(b'\x01', i)
+        if j < 0:
+            break
+        f = raw[i:j]
+        k = f.find(b'=')
+        if k < 0:
+            break
+        toks.append((f[:k], f[k + 1:]))
+        i = j + 1
+    return toks, raw[i:]
+
+
+# ------------------------------------------------------------------------------------------------
+# mutated / malformed wire streams for `dec`
+
+def tok_bytes(toks):
+    return b''.join(t + b'=' + v + b'\x01' for t, v in toks)
+
+
+def reframe(sc, toks, fix_len=True, good_chk=True):
+    """toks: list of (tagbytes, value) WITHOUT 8/9/10; builds a frame"""
+    payload = tok_bytes(toks)
+    front = b'8=' + sc['beginstr'] + b'\x019=%d\x01' % (len(payload) if fix_len else 7) + payload
+    c = sum(front) % 256
+    if not good_chk:
+        c = (c + 1 + (c % 7)) % 256
+    return front + b'10=%03d\x01' % c
+
+
+MUTATIONS = ('none', 'unknown_tag', 'foreign_tag', 'big_tag', 'dup', 'drop_mandatory', 'bad_chk', 'numtext', 'swap_sections', 'group_first',
+             'count_mismatch', 'trailer_tag_in_body', 'dup_auto', 'begin_garbage', 'tag80', 'truncate', 'no_soh', 'long_value', 'long_tag', 'random_bytes',
+             'empty_tag', 'huge_count', 'len_data_bad', 'nul_in_value')
+
+
+def mutate(rng, sc, mt, items, kind):
+    """returns (raw bytes, info) for a message mutated in the given way"""
+    body_tr = [m for m in sc['msgs'] if m[0] == mt][0][1]
+    wire, toks = ref_encode(sc, mt, items)
+    toks = [(b'%d' % t, v) for t, v in toks]
+    nh = 1 + len(ref_tokens(sc, sc['header'], [i for i in items if i.sec == 'h']))
+    nb = len(ref_tokens(sc, body_tr, [i for i in items if i.sec == 'b']))
+    known = set(sc['fields'])
+    body_tags = {t[0] for t in body_tr}
+    hdr_tags = {t[0] for t in sc['header']}
+    def pick_pos():
+        c = rng.random()
+        if c < 0.2:
+            return rng.randrange(1, nh + 1)                    # inside / end of header
+        if c < 0.7:
+            return rng.randrange(nh, nh + nb + 1)              # body
+        return len(toks)                                       # just before the checksum
+    if kind == 'none':
+        return reframe(sc, toks), {}
+    if kind == 'unknown_tag':
+        t = rng.choice([x for x in (5000, 7, 9000, 20000, 448, 65535, 0) if x not in known] or [50000])
+        p = pick_pos()
+        toks.insert(p, (b'%d' % t, b'blah'))
+        return reframe(sc, toks), dict(pos=p, tag=t)
+    if kind == 'foreign_tag':
+        cand = sorted(known - body_tags - hdr_tags - {8, 9, 10, 35, 89, 93})
+        t = rng.choice(cand)
+        p = pick_pos()
+        toks.insert(p, (b'%d' % t, b'1'))
+        return reframe(sc, toks), dict(pos=p, tag=t)
+    if kind == 'big_tag':
+        base = rng.choice(sorted(body_tags - {t for t, _ in [(int(a), b) for a, b in toks]}) or [58])
+        p = rng.randrange(nh, nh + nb + 1)
+        toks.insert(p, (b'%d' % (base + 65536 * rng.choice((1, 2, 7))), b'1'))
+        return reframe(sc, toks), dict(pos=p, alias=base)
+    if kind == 'dup':
+        p = rng.randrange(1, len(toks))
+        toks.insert(rng.randrange(p + 1, len(toks) + 1), toks[p])
+        return reframe(sc, toks), dict(pos=p)
+    if kind == 'drop_mandatory':
+        mand = {t[0] for t in body_tr + sc['header'] if t[3] & F_MAND}
+        idx = [i for i, (t, _) in enumerate(toks) if int(t) in mand and i > 0]
+        if idx:
+            del toks[rng.choice(idx)]
+        return reframe(sc, toks), {}
+    if kind == 'bad_chk':
+        return reframe(sc, toks, good_chk=False), {}
+    if kind == 'numtext':
+        ints = [i for i, (t, v) in enumerate(toks) if i > 0 and re.fullmatch(rb'\d+', v) and int(t) not in (9,)]
+        if ints:
+            i = rng.choice(ints)
+            t, v = toks[i]
+            toks[i] = (t, rng.choice((b'+' + v, b'00' + v, v + b' ', b' ' + v, v + b'.0', b'0x' + v)))
+        return reframe(sc, toks), {}
+    if kind == 'swap_sections':
+        if nb and nh > 1:
+            i, j = rng.randrange(1, nh), rng.randrange(nh, nh + nb)
+            toks[i], toks[j] = toks[j], toks[i]
+        return reframe(sc, toks), {}
+    if kind == 'trailer_tag_in_body':
+        toks.insert(rng.randrange(nh, nh + nb + 1), (b'10', b'000'))
+        return reframe(sc, toks), {}
+    if kind == 'dup_auto':
+        toks.insert(rng.randrange(1, nh + 1), rng.choice(((b'35', mt), (b'8', b'FIX.4.2'), (b'9', b'12'), (b'35', b'Z'))))
+        return reframe(sc, toks), {}
+    if kind == 'begin_garbage':
+        payload = tok_bytes(toks)
+        front = b'8=' + rng.choice((b'GARBAGE', b'FIX.4.4', b'')) + b'\x019=%d\x01' % len(payload) + payload
+        return front + b'10=%03d\x01' % (sum(front) % 256), {}
+    if kind == 'tag80':
+        payload = tok_bytes(toks)
+        pre = rng.choice((b'80=FIX.4.2\x019=%d\x01', b'8=FIX.4.2\x0198=%d\x01', b'8=FIX.4.2\x019=%d\x01'))
+        if b'%d' in pre:
+            pre = pre % len(payload)
+        if rng.random() < 0.5:
+            payload = b'351=' + mt + b'\x01' + tok_bytes(toks[1:])
+        front = pre + payload
+        return front + b'10=%03d\x01' % (sum(front) % 256), {}
+    if kind == 'truncate':
+        raw = reframe(sc, toks)
+        return raw[:rng.randrange(0, len(raw))], {}
+    if kind == 'no_soh':
+        raw = bytearray(reframe(sc, toks))
+        idx = [i for i, c in enumerate(raw) if c == 1]
+        for i in rng.sample(idx, min(len(idx), rng.choice((1, 1, 2)))):
+            raw[i] = rng.choice(b'|;x')
+        return bytes(raw), {}
+    if kind == 'empty_tag':
+        toks.insert(pick_pos(), (rng.choice((b'', b'x', b'-5', b'1a')), b'1'))
+        return reframe(sc, toks), {}
+    if kind == 'nul_in_value':
+        strs = [i for i, (t, v) in enumerate(toks) if i > 0 and len(v) >= 3]
+        if strs:
+            i = rng.choice(strs)
+            t, v = toks[i]
+            toks[i] = (t, v[:1] + b'\x00' + v[2:])
+        return reframe(sc, toks), {}
+    if kind == 'group_first' or kind == 'count_mismatch' or kind == 'huge_count':
+        # work on the structured items: find a group with >= 1 element
+        import copy
+        its = copy.deepcopy(items)
+        grp = [i for i in its if i.elems]
+        if not grp:
+            return reframe(sc, toks), dict(nogroup=True)
+        g = rng.choice(grp)
+        if kind == 'group_first':
+            e = rng.choice(g.elems)
+            if len(e) >= 2:
+                e.append(e.pop(0))              # first field no longer first
+            else:
+                e[0] = Item('b', e[0].tag + 0, e[0].val)
+                g.elems.insert(0, [])            # no-op
+                g.elems = [x for x in g.elems if x]
+        elif kind == 'count_mismatch':
+            g.val = str(len(g.elems) + rng.choice((1, 2, -1 if len(g.elems) > 1 else 1))).encode()
+        else:
+            g.val = rng.choice((b'999999999', b'2147483647', b'4294967295', b'-1'))
+        # group elements keep the given field order: flatten by hand (no position sort inside the mutated element)
+        def flat(traits, items_):
+            pos = {t[0]: t for t in traits}
+            out = []
+            for it in items_:
+                out.append((b'%d' % it.tag, it.val))
+                if it.elems:
+                    gt = sc['groups'][pos[it.tag][4]]
+                    for e in it.elems:
+                        out += flat(gt, e)
+            return out
+        h = sorted([i for i in its if i.sec == 'h'], key=lambda i: eff_pos({t[0]: t for t in sc['header']}[i.tag]))
+        b = sorted([i for i in its if i.sec == 'b'], key=lambda i: eff_pos({t[0]: t for t in body_tr}[i.tag]))
+        toks2 = [(b'35', mt)] + flat(sc['header'], h) + flat(body_tr, b)
+        return reframe(sc, toks2), {}
+    if kind == 'long_value':
+        n = rng.choice((2046, 2047, 2048, 2049, 3000, 5000))
+        strs = [i for i, (t, v) in enumerate(toks) if i >= nh]
+        i = rng.choice(strs) if strs else len(toks) - 1
+        toks[i] = (toks[i][0], bytes(rng.choice(PRINTABLE) for _ in range(n)))
+        return reframe(sc, toks), dict(n=n)
+    if kind == 'long_tag':
+        n = rng.choice((30, 31, 32, 33, 40, 2047, 2048, 2100))
+        toks.insert(pick_pos() if rng.random() < 0.7 else 0, (b'1' * n, b'x'))
+        return reframe(sc, toks), dict(n=n)
+    if kind == 'len_data_bad':
+        pairs = [i for i, (t, v) in enumerate(toks[:-1]) if int(t) + 1 == int(toks[i + 1][0]) and re.fullmatch(rb'\d+', v) and int(t) != 9]
+        if pairs:
+            i = rng.choice(pairs)
+            t, v = toks[i]
+            toks[i] = (t, rng.choice((b'%d' % (int(v) + 1), b'%d' % max(0, int(v) - 1), b'2047', b'2048', b'99999', b'-1', b'')))
+        return reframe(sc, toks), {}
+    if kind == 'random_bytes':
+        n = rng.choice((0, 1, 6, 7, 8, 20, 100, 1000, rng.randrange(0, 8192)))
+        c = rng.random()
+        if c < 0.4:
+            return bytes(rng.randrange(256) for _ in range(n)), {}
+        if c < 0.7:
+            return b'8=FIX.4.2\x019=12\x0135=' + rng.choice((b'0', b'D', b'8', b'i')) + b'\x01' + bytes(rng.choice(b'0123456789=\x01ABC|') for _ in range(n)) + b'10=000\x01', {}
+        return bytes(rng.choice(b'0123456789=\x01') for _ in range(n)), {}
+    raise ValueError(kind)
+
+
+def payload_len(sc, mt, items):
+    wire, _ = ref_encode(sc, mt, items)
+    pre = b'8=' + sc['beginstr'] + b'\x019='
+    i = wire.index(b'\x01', len(pre))
+    return len(wire) - (i + 1) - 7
+
+
+def pad_to(rng, sc, mt, items, target):
+    """adjust a header string field (SenderSubID 50) so that the BodyLength is exactly `target`; None if impossible"""
+    items = [i for i in items if not (i.sec == 'h' and i.tag == 50)]
+    base = payload_len(sc, mt, items)
+    need = target - base - len(b'50=\x01')
+    if need < 1 or need > 2000:
+        return None
+    return items + [Item('h', 50, bytes(rng.choice(PRINTABLE.replace(b'=', b'')) for _ in range(need)))]
+
+
+# ------------------------------------------------------------------------------------------------
+# C02: a stand-alone recogniser of well-formed FIX wire text for a schema (written from the property's clauses)
+
+def wire_problems(sc, mt, wire):
+    probs = []
+    bs = sc['beginstr']
+    pre = b'8=' + bs + b'\x019='
+    if not wire.startswith(pre):
+        return ['does not start with BeginString followed by BodyLength']
+    j = wire.find(b'\x01', len(pre))
+    lentxt = wire[len(pre):j]
+    if not re.fullmatch(rb'[1-9]\d*|0', lentxt):
+        return ['BodyLength is not a canonical decimal: %r' % lentxt]
+    if wire[-7:-4] != b'10=' or wire[-1:] != b'\x01' or not re.fullmatch(rb'\d{3}', wire[-4:-1]):
+        return ['does not end with a three-digit CheckSum field']
+    payload = wire[j + 1:-7]
+    if int(lentxt) != len(payload):
+        probs.append('BodyLength %s but %d bytes between BodyLength and CheckSum' % (lentxt.decode(), len(payload)))
+    if int(wire[-4:-1]) != sum(wire[:-7]) % 256:
+        probs.append('CheckSum %s but byte sum mod 256 is %d' % (wire[-4:-1].decode(), sum(wire[:-7]) % 256))
+    if not payload.startswith(b'35=' + mt + b'\x01'):
+        probs.append('MsgType is not the third field')
+    body_tr = [m for m in sc['msgs'] if m[0] == mt][0][1]
+    pos = [len(b'35=' + mt + b'\x01')]
+
+    def next_token(traits_by_tag, prev):
+        """(tag, value) at pos, data-aware: a data field directly after its Length field takes that many bytes"""
+        m = re.compile(rb'([1-9]\d*)=').match(payload, pos[0])
+        if not m:
+            return None
+        tag = int(m.group(1))
+        start = m.end()
+        tr = traits_by_tag.get(tag)
+        if tr is not None and kind(sc, tr[1]) == 'data' and prev is not None and prev[0] + 1 == tag and re.fullmatch(rb'\d+', prev[1]):
+            n = int(prev[1])
+            if payload[start + n:start + n + 1] != b'\x01':
+                return None
+            val = payload[start:start + n]
+            end = start + n + 1
+        else:
+            e = payload.find(b'\x01', start)
+            if e < 0:
+                return None
+            val = payload[start:e]
+            end = e + 1
+        return tag, val, end
+
+    def section(traits, name, depth=0, stop_tags=()):
+        by = {t[0]: t for t in traits}
+        lastpos, seen, prev = 0, set(), None
+        while pos[0] < len(payload):
+            tk = next_token(by, prev)
+            if tk is None:
+                probs.append('not a tag=value<SOH> field at payload offset %d' % pos[0])
+                pos[0] = len(payload)
+                return
+            tag, val, end = tk
+            if tag not in by or tag in seen:
+                return                          # belongs to the next section / next element / enclosing level
+            tr = by[tag]
+            p = eff_pos(tr)
+            if p and p < lastpos:
+                probs.append('%s field %d (position %d) after position %d' % (name, tag, p, lastpos))
+            lastpos = max(lastpos, p)
+            seen.add(tag)
+            pos[0] = end
+            prev = (tag, val)
+            if tr[3] & F_GROUP and re.fullmatch(rb'\d+', val) and int(val) > 0:
+                g = sc['groups'][tr[4]]
+                first = min(g, key=lambda t: t[2])[0]
+                n = 0
+                while pos[0] < len(payload):
+                    m = re.compile(rb'([1-9]\d*)=').match(payload, pos[0])
+                    if not m or int(m.group(1)) != first:
+                        break
+                    section(g, 'group %d' % tag, depth + 1)
+                    n += 1
+                if n != int(val):
+                    probs.append('group %d announces %s elements, %d elements starting with field %d follow' % (tag, val.decode(), n, first))
+                prev = None
+    section(sc['header'], 'header')
+    section(body_tr, 'body')
+    section(sc['trailer'], 'trailer')
+    if pos[0] != len(payload):
+        probs.append('field at payload offset %d is neither a header, body nor trailer field in sequence' % pos[0])
+    return probs
